@@ -109,6 +109,13 @@ func (s *streamWriter) Invoke(msgs []actor.Envelope) {
 		})
 	}
 
+	// Nothing to put on the wire: every message of the batch was dropped above.
+	// The stream must not be touched then: it does not exist yet while the
+	// writer is still dialing, and the inbox is already open at that point.
+	if len(messages) == 0 {
+		return
+	}
+
 	env := &Envelope{
 		Senders:   senders,
 		Targets:   targets,
